@@ -10,6 +10,8 @@
 package main
 
 import (
+	"encoding/binary"
+	"encoding/hex"
 	"encoding/json"
 	"errors"
 	"fmt"
@@ -31,8 +33,10 @@ import (
 	govv1 "github.com/cosmos/cosmos-sdk/x/gov/types/v1"
 	govv1beta1 "github.com/cosmos/cosmos-sdk/x/gov/types/v1beta1"
 	minttypes "github.com/cosmos/cosmos-sdk/x/mint/types"
+	paramproposal "github.com/cosmos/cosmos-sdk/x/params/types/proposal"
 	stakingtypes "github.com/cosmos/cosmos-sdk/x/staking/types"
 
+	sdkgovkeeper "github.com/cosmos/cosmos-sdk/x/gov/keeper"
 	crosschaintypes "github.com/functionx/fx-core/v8/x/crosschain/types"
 	erc20types "github.com/functionx/fx-core/v8/x/erc20/types"
 	govkeeper "github.com/functionx/fx-core/v8/x/gov/keeper"
@@ -82,22 +86,23 @@ type mMsg struct {
 }
 
 type propInfo struct {
-	ID        uint64
-	Kind      string
-	Types     []int
-	URLs      []string
-	Expedited bool
-	ReqFX     *big.Int // requested community-pool spend in the deposit denomination
-	AllEGF    bool
-	HasFail   bool // a message that must fail on execution
-	OkBefore  bool // ... preceded by messages that succeed
-	Rcpt      []sdk.AccAddress
-	GovSend   *big.Int // what a passed proposal sends out of the module account
-	sendTo    int64
-	Deposits  map[int64]*big.Int
-	Activated bool
-	Closed    bool
-	Proposer  int64
+	ID            uint64
+	Kind          string
+	Types         []int
+	URLs          []string
+	Expedited     bool
+	ReqFX         *big.Int // requested community-pool spend in the deposit denomination
+	AllEGF        bool
+	HasFail       bool // a message that must fail on execution
+	OkBefore      bool // ... preceded by messages that succeed
+	Rcpt          []sdk.AccAddress
+	GovSend       *big.Int // what a passed proposal sends out of the module account
+	sendTo        int64
+	Deposits      map[int64]*big.Int
+	Activated     bool
+	Closed        bool
+	Proposer      int64
+	LegacyContent govv1beta1.Content // submit through the v1beta1 MsgServer
 }
 
 // ---------------------------------------------------------------- history
@@ -109,6 +114,7 @@ type hist struct {
 	r      *lib.Rand
 	c      *lib.Chain
 	ms     fxgovtypes.MsgServerPro
+	legacy govv1beta1.MsgServer // the v1beta1 server the app registers: a wrapper around ms
 	gov    string
 	govAcc sdk.AccAddress
 	ids    []int64
@@ -135,6 +141,7 @@ type hist struct {
 	noCorr     bool // the history contains a message the model has no action for: monitor only
 
 	maxOpenTypes    int
+	corrupted       bool // some stored proposal record was made undecodable
 	govSendExecuted bool
 	customTouched   bool
 	fails           []lib.Failure
@@ -142,18 +149,19 @@ type hist struct {
 }
 
 type pObs struct {
-	ID        uint64
-	Status    int
-	Expedited bool
-	Total     *big.Int
-	Deps      map[int64]*big.Int
-	VStart    int64
-	VEnd      int64
-	DepEnd    int64
-	DepEndNs  int64
-	VEndNs    int64
-	Tally     [4]*big.Int
-	URLs      []string
+	ID          uint64
+	Status      int
+	Expedited   bool
+	Total       *big.Int
+	Deps        map[int64]*big.Int
+	VStart      int64
+	VEnd        int64
+	DepEnd      int64
+	Undecodable bool
+	DepEndNs    int64
+	VEndNs      int64
+	Tally       [4]*big.Int
+	URLs        []string
 }
 
 type obsT struct {
@@ -203,7 +211,31 @@ func (h *hist) observe(res int) *obsT {
 	o := &obsT{Res: res, Bals: map[int64]*big.Int{}, InactKey: map[uint64][]int64{}, ActKey: map[uint64][]int64{}}
 	gk := h.c.App.GovKeeper
 	open := map[uint64]bool{}
-	lib.Must(gk.Proposals.Walk(ctx, nil, func(id uint64, p govv1.Proposal) (bool, error) {
+	for _, kv := range h.c.DumpPrefix(ctx, "gov", []byte{0}) {
+		if len(kv.K) != 9 {
+			continue
+		}
+		id := binary.BigEndian.Uint64(kv.K[1:])
+		p, err := gk.Proposals.Get(ctx, id)
+		if err != nil {
+			// the stored record cannot be decoded: report what was last seen of it, flagged
+			po := &pObs{ID: id, Status: 9, Deps: map[int64]*big.Int{}, Total: new(big.Int), Undecodable: true}
+			if h.prev != nil {
+				for _, q := range h.prev.Props {
+					if q.ID == id {
+						cp := *q
+						cp.Deps = map[int64]*big.Int{}
+						cp.Undecodable = true
+						po = &cp
+					}
+				}
+			}
+			if po.Status == 1 || po.Status == 2 {
+				open[id] = true
+			}
+			o.Props = append(o.Props, po)
+			continue
+		}
 		po := &pObs{ID: id, Status: int(p.Status), Expedited: p.Expedited, Deps: map[int64]*big.Int{}}
 		tot := sdk.NewCoins(p.TotalDeposit...)
 		po.Total = tot.AmountOf(denomFX).BigInt()
@@ -216,9 +248,13 @@ func (h *hist) observe(res int) *obsT {
 			po.DepEnd = rel(*p.DepositEndTime)
 			po.DepEndNs = p.DepositEndTime.UnixNano()
 		}
-		tr := p.FinalTallyResult
-		for i, s := range []string{tr.YesCount, tr.AbstainCount, tr.NoCount, tr.NoWithVetoCount} {
-			po.Tally[i], _ = new(big.Int).SetString(s, 10)
+		for i := range po.Tally {
+			po.Tally[i] = new(big.Int)
+		}
+		if tr := p.FinalTallyResult; tr != nil {
+			for i, s := range []string{tr.YesCount, tr.AbstainCount, tr.NoCount, tr.NoWithVetoCount} {
+				po.Tally[i], _ = new(big.Int).SetString(s, 10)
+			}
 		}
 		for _, m := range p.Messages {
 			po.URLs = append(po.URLs, m.TypeUrl)
@@ -227,8 +263,7 @@ func (h *hist) observe(res int) *obsT {
 			open[id] = true
 		}
 		o.Props = append(o.Props, po)
-		return false, nil
-	}))
+	}
 	byID := map[uint64]*pObs{}
 	for _, p := range o.Props {
 		byID[p.ID] = p
@@ -368,6 +403,7 @@ func newHist(seed int64, idx int, class string) *hist {
 	lib.Must(h.c.NextBlock())
 	c := h.c
 	h.ms = govkeeper.NewMsgServerImpl(c.App.GovKeeper)
+	h.legacy = sdkgovkeeper.NewLegacyMsgServerImpl(lib.GovAuthority(), h.ms) // as x/gov/module.go RegisterServices does
 	h.gov = lib.GovAuthority()
 	h.govAcc = authtypes.NewModuleAddress(govtypes.ModuleName)
 	for i, k := range c.ValKeys {
@@ -619,6 +655,9 @@ func (h *hist) buildMsgs(kind string, info *propInfo) ([]sdk.Msg, []mMsg) {
 		lib.Must(err)
 		msgs = append(msgs, m)
 		mm = append(mm, mMsg{Type: tyText, Act: fmt.Sprintf("AOk %d", tag)})
+		if kind == "text-legacy" {
+			info.LegacyContent = content
+		}
 	}
 	spend := func(coins sdk.Coins, ok bool) {
 		msgs = append(msgs, &distrtypes.MsgCommunityPoolSpend{Authority: h.gov, Recipient: newRcpt().String(), Amount: coins})
@@ -674,8 +713,17 @@ func (h *hist) buildMsgs(kind string, info *propInfo) ([]sdk.Msg, []mMsg) {
 		}
 	}
 	switch kind {
-	case "text":
+	case "text", "text-legacy":
 		text()
+	case "legacy-unrouted":
+		// a legacy parameter change of a subspace that does not exist: the legacy handler, run on a cache
+		// context at submission, refuses it
+		content := paramproposal.NewParameterChangeProposal("change", "description", []paramproposal.ParamChange{{Subspace: "nosuchspace", Key: "k", Value: "1"}})
+		m, err := govv1.NewLegacyContent(content, h.gov)
+		lib.Must(err)
+		msgs = append(msgs, m)
+		mm = append(mm, mMsg{Type: tyText, Act: "AFail"})
+		info.LegacyContent = content
 	case "none":
 	case "egf":
 		n := 1 + r.Intn(2)
@@ -788,6 +836,9 @@ func (h *hist) depositCoins(amt *big.Int, badDenom bool) sdk.Coins {
 }
 
 func (h *hist) opSubmit(kind string, proposer int64, amt *big.Int, expedited, badDenom bool) {
+	if kind == "text-legacy" || kind == "legacy-unrouted" {
+		expedited = false // the v1beta1 message has no such field
+	}
 	h.opSubmitWith(kind, proposer, amt, expedited, badDenom, func(info *propInfo) ([]sdk.Msg, []mMsg) { return h.buildMsgs(kind, info) })
 }
 
@@ -871,13 +922,25 @@ func (h *hist) opSubmitSend(proposer, to int64, amount, amt *big.Int) {
 func (h *hist) opSubmitWith(kind string, proposer int64, amt *big.Int, expedited, badDenom bool, build func(*propInfo) ([]sdk.Msg, []mMsg)) {
 	info := &propInfo{Kind: kind, Expedited: expedited, ReqFX: new(big.Int), Deposits: map[int64]*big.Int{}, Proposer: proposer}
 	msgs, mm := build(info)
-	valid := kind != "badsigner"
+	valid := kind != "badsigner" && kind != "legacy-unrouted"
 	metadata := ""
 	if kind == "none" {
 		metadata = "c15 metadata-only proposal"
 	}
 	var id uint64
 	err := h.c.Try(func(ctx sdk.Context) error {
+		if info.LegacyContent != nil {
+			lm, err := govv1beta1.NewMsgSubmitProposal(info.LegacyContent, h.depositCoins(amt, badDenom), h.keys[proposer].Acc())
+			if err != nil {
+				return err
+			}
+			r, err := h.legacy.SubmitProposal(ctx, lm)
+			if err != nil {
+				return err
+			}
+			id = r.ProposalId
+			return nil
+		}
 		m, err := govv1.NewMsgSubmitProposal(msgs, h.depositCoins(amt, badDenom), h.keys[proposer].Acc().String(), metadata, "title", "summary", expedited)
 		if err != nil {
 			return err
@@ -916,10 +979,18 @@ func (h *hist) opSubmitWith(kind string, proposer int64, amt *big.Int, expedited
 }
 
 func (h *hist) opDeposit(pid uint64, who int64, amt *big.Int, badDenom bool) {
+	viaLegacy := h.r.Chance(15)
 	err := h.c.Try(func(ctx sdk.Context) error {
+		if viaLegacy {
+			_, err := h.legacy.Deposit(ctx, &govv1beta1.MsgDeposit{ProposalId: pid, Depositor: h.keys[who].Acc().String(), Amount: h.depositCoins(amt, badDenom)})
+			return err
+		}
 		_, err := h.ms.Deposit(ctx, &govv1.MsgDeposit{ProposalId: pid, Depositor: h.keys[who].Acc().String(), Amount: h.depositCoins(amt, badDenom)})
 		return err
 	})
+	if viaLegacy {
+		h.stats["legacy-deposit"]++
+	}
 	code := errCode("deposit", err)
 	opc := fmt.Sprintf("GOp (ODeposit %d %d %d %s %s)", h.now(), pid, who, zb(amt), lib.Bool(badDenom))
 	h.logf("deposit id=%d by=%d amount=%s badDenom=%v -> err=%v", pid, who, amt, badDenom, err)
@@ -937,7 +1008,28 @@ func (h *hist) opDeposit(pid uint64, who int64, amt *big.Int, badDenom bool) {
 }
 
 func (h *hist) opVote(pid uint64, who int64, opts [][2]string, weighted bool) {
+	viaLegacy := h.r.Chance(15)
+	if viaLegacy {
+		h.stats["legacy-vote"]++
+	}
 	err := h.c.Try(func(ctx sdk.Context) error {
+		if viaLegacy && !weighted {
+			var o int32
+			fmt.Sscan(opts[0][0], &o)
+			_, err := h.legacy.Vote(ctx, &govv1beta1.MsgVote{ProposalId: pid, Voter: h.keys[who].Acc().String(), Option: govv1beta1.VoteOption(o)})
+			return err
+		}
+		if viaLegacy {
+			var wo []govv1beta1.WeightedVoteOption
+			for _, ow := range opts {
+				var o int32
+				fmt.Sscan(ow[0], &o)
+				w, _ := new(big.Int).SetString(ow[1], 10)
+				wo = append(wo, govv1beta1.WeightedVoteOption{Option: govv1beta1.VoteOption(o), Weight: sdkmath.LegacyNewDecFromBigIntWithPrec(w, 18)})
+			}
+			_, err := h.legacy.VoteWeighted(ctx, &govv1beta1.MsgVoteWeighted{ProposalId: pid, Voter: h.keys[who].Acc().String(), Options: wo})
+			return err
+		}
 		if !weighted {
 			var o int32
 			fmt.Sscan(opts[0][0], &o)
@@ -1004,6 +1096,30 @@ func (h *hist) opCustom(authorized bool, key int, cp *fxgovtypes.CustomParams) {
 	h.monitor(o, "custom", err)
 }
 
+// the stored record of a proposal is overwritten with bytes that do not decode, through fx-core's own
+// authority-guarded MsgUpdateStore (what an upgrade that drops a message type does to old proposals)
+func (h *hist) opCorrupt(pid uint64) {
+	key := append([]byte{0}, make([]byte, 8)...)
+	binary.BigEndian.PutUint64(key[1:], pid)
+	var old []byte
+	for _, kv := range h.c.DumpPrefix(h.c.Ctx, "gov", key) {
+		old = kv.V
+	}
+	err := h.c.Try(func(ctx sdk.Context) error {
+		_, err := h.ms.UpdateStore(ctx, &fxgovtypes.MsgUpdateStore{Authority: h.gov, UpdateStores: []fxgovtypes.UpdateStore{
+			{Space: "gov", Key: hex.EncodeToString(key), OldValue: hex.EncodeToString(old), Value: "ffff"}}})
+		return err
+	})
+	code := errCode("custom", err)
+	h.logf("corrupt stored proposal %d (MsgUpdateStore) -> err=%v", pid, err)
+	h.stats["corrupt"]++
+	if err == nil {
+		h.corrupted = true
+	}
+	o := h.record(fmt.Sprintf("GOp (OCorrupt %d)", pid), code)
+	h.monitor(o, "corrupt", err)
+}
+
 // governance Params replaced mid-history through the real (authority-guarded) MsgUpdateParams
 func (h *hist) opGovParams(authorized, valid bool, mutate func(p *govv1.Params)) {
 	p := h.params
@@ -1043,7 +1159,13 @@ func (h *hist) genGovParams() {
 	dur := func(d time.Duration) *time.Duration { return &d }
 	h.opGovParams(!r.Chance(12), !r.Chance(10), func(p *govv1.Params) {
 		for n := 1 + r.Intn(3); n > 0; n-- {
-			switch r.Intn(8) {
+			switch r.Intn(9) {
+			case 8:
+				// vote thresholds (the expedited one must stay above the regular one) and the veto threshold
+				th := []string{"0.5", "0.334", "0.6", "0.9"}[r.Intn(4)]
+				p.Threshold = th
+				p.ExpeditedThreshold = map[string]string{"0.5": "0.667", "0.334": "0.5", "0.6": "0.75", "0.9": "1"}[th]
+				p.VetoThreshold = []string{"0.334", "0.1", "0.5", "1"}[r.Intn(4)]
 			case 0:
 				mind := []int64{10_000, 5_000, 1_000, 20_000}[r.Intn(4)]
 				p.MinDeposit = sdk.NewCoins(lib.FX(mind))
@@ -1153,6 +1275,9 @@ func (h *hist) opEndBlock(dt time.Duration) {
 		if spend {
 			sig = "C15:gov-account-spend:endblock-halts"
 		}
+		if h.corrupted {
+			sig = "C15:undecodable-proposal:endblock-halts"
+		}
 		h.fail(sig, fmt.Sprintf("the end blocker returned an error, the block cannot be finalized: %v", err))
 		return
 	}
@@ -1250,7 +1375,11 @@ func (h *hist) monitor(o *obsT, op string, opErr error) {
 			for id, ks := range got {
 				w, ok := want[id]
 				if !ok || len(ks) != 1 || ks[0] != w {
-					h.fail("C15:queue-inconsistent", fmt.Sprintf("%s queue has entries %v for proposal %d (expected: %v at %d)", name, ks, id, ok, w))
+					qsig := "C15:queue-inconsistent"
+					if h.corrupted {
+						qsig = "C15:undecodable-proposal:stale-queue-entry"
+					}
+					h.fail(qsig, fmt.Sprintf("%s queue has entries %v for proposal %d (expected: %v at %d)", name, ks, id, ok, w))
 				}
 			}
 			for id, w := range want {
@@ -1538,6 +1667,9 @@ func (h *hist) monitorEndBlock(o *obsT, before map[string][]lib.KV, custBefore m
 		if !tallied {
 			continue
 		}
+		if p.Undecodable {
+			continue // closed by failUnsupportedProposal, not by a tally
+		}
 		h.stats["tallied"]++
 		h.checkQuorum(p, q, info, custBefore)
 		if p.Expedited && !q.Expedited && q.Status == 2 {
@@ -1755,7 +1887,7 @@ func (h *hist) propObs(id uint64) *pObs {
 
 func (h *hist) pickKind() string {
 	r := h.r
-	kinds := []string{"text", "text", "egf", "egf", "xparams", "xparams", "toggle", "toggle", "toggle-fail", "toggle-fail", "egf-fail", "egf-fail", "send-fail", "none", "mixed", "mixed-samename", "badsigner"}
+	kinds := []string{"text", "text", "egf", "egf", "xparams", "xparams", "toggle", "toggle", "toggle-fail", "toggle-fail", "egf-fail", "egf-fail", "send-fail", "none", "mixed", "mixed-samename", "badsigner", "text-legacy", "text-legacy", "legacy-unrouted"}
 	if h.class == "govsend" {
 		kinds = append(kinds, "send", "send", "send", "send")
 	}
